@@ -55,9 +55,10 @@ ASSUMPTIONS = [
     "without zero-injection bus; init='results' without auxiliary buses is the exact state, so non-convergence from it is always a failure (signature "
     "results-init-dc-angles/not-successful when a phase-shifting branch makes estimate replace the result angles by DC angles)",
     "the signature of a failure names the input class: precondition of an open defect (auxiliary buses with irwls / zero "
-    "constraint / z_base >= 10 kOhm; flat start with current magnitudes) and / or shape of a repaired defect (side as bus index, "
-    "trafo3w terminal out of service, zero constraint with sn_mva != 1, phase shift without DC start), joined by '+' when both "
-    "apply; the repaired shapes only exist to give a regression of a repair its own signature",
+    "constraint / z_base >= 10 kOhm; flat start with current magnitudes) first, else the shape of a repaired defect (side as bus "
+    "index - only if the failure disappears with string sides -, trafo3w terminal out of service and zero constraint with "
+    "sn_mva != 1 [both joined to the open class with '+', they would hardly ever occur without one], phase shift / slack angle "
+    "without DC start); the repaired shapes only exist to give a regression of a repair its own signature",
     "tolerances: vm 2e-6 p.u., va 2e-4 degree, flows 1e-5 MVA*max(1,sn/100) + 1e-6 relative + short-circuit power of the branch * 4e-6 "
     "(state tolerance of the estimator is 1e-6)",
     "chi2_analysis only when distinct live measurements > 2*(upper bound of the number of internal buses) (>=1 degree of freedom) and "
@@ -212,7 +213,8 @@ class Truth:
                 self.open_sw[et].add((e, b))
         # auxiliary buses of the internal model: one per open element switch and per in-service branch terminal at an
         # out-of-service bus (upper bound, used for the degrees-of-freedom guard only)
-        self.n_aux = sum(len(v) for v in self.open_sw.values())
+        self.n_aux = sum(1 for et, tab in (("l", "line"), ("t", "trafo"), ("t3", "trafo3w")) for (e, b) in self.open_sw[et]
+                         if e in net[tab].index and net[tab].at[e, "in_service"])
         for tab, cols in (("line", ("from_bus", "to_bus")), ("trafo", ("hv_bus", "lv_bus")),
                           ("trafo3w", ("hv_bus", "mv_bus", "lv_bus")), ("impedance", ("from_bus", "to_bus"))):
             t = net[tab]
@@ -531,6 +533,13 @@ def check(case):
         if res2.failures:
             res.failures = list(res2.failures)
             res.label("side-as-bus-not-the-cause")
+        else:
+            # same measurements, only the notation of the side differs: whatever class the input has, this is the cause
+            def kind(sig):
+                parts = sig.split("/")
+                return parts[0] if parts[-1] == "plain" else parts[-1]
+            res.failures = [("side-as-bus/" + kind(sig), dict(detail, differs_from_string_sides=True, without_differential=sig))
+                            for sig, detail in res.failures]
     return res
 
 
@@ -585,14 +594,15 @@ def _check(case):
     has_i = any(r["mt"] == "i" for r in rows)
     t3_out_measured = any(r["et"] == "trafo3w" and r["el"] in T.t3_side_out for r in rows)
     alg, init = opt["algorithm"], opt["init"]
-    # root-cause class of a failure = facts about the input: the precondition of a defect that is still open (known finding) and /
-    # or the shape of a REPAIRED defect, joined with "+" when both apply.  The repaired shapes are kept only so that a regression
-    # of a repair gets its own (unlisted) signature.  They must not stand alone when the input also meets the precondition of an
-    # open defect, otherwise that defect is reported under the name of a repaired one (seen: "side-as-bus/not-successful" was
-    # flat start + current magnitude, same outcome with sides given as strings; "t3-terminal-oos/not-successful" and
-    # "phase-shift-no-dc-init/not-successful" were irwls with auxiliary buses: cond(G) 5e16, 3 iterations with virtual sigma 1e-4);
-    # and the open class must not swallow the repaired shape either (a regression of the trafo3w repair at 110 kV / 1 MVA would be
-    # listed as aux-bus-virtual-sigma/wrong-estimate).  Only combinations whose witness was traced to the open defect are listed.
+    # root-cause class of a failure = a fact about the input.  The precondition of a defect that is still OPEN (known finding)
+    # comes first; the shapes named after REPAIRED defects follow - they are kept only so that a regression of a repair gets its own
+    # (unlisted) signature and must not shadow an open defect (seen: "side-as-bus/not-successful" was flat start + current
+    # magnitude, same outcome with sides given as strings; "t3-terminal-oos/not-successful" and
+    # "phase-shift-no-dc-init/not-successful" were irwls with auxiliary buses: cond(G) 5e16, 3 iterations with virtual sigma 1e-4).
+    # Two repaired shapes are narrow and mostly coincide with an open precondition, so that open-first would hide nearly every
+    # regression of their repair (a trafo3w terminal at an out-of-service bus always creates an auxiliary bus; with the
+    # zero-constraint repair reverted 9 of 9 failing cases of a quick run were auxiliary-bus or flat-start/current cases): for
+    # these both names are joined with "+", and only a combination whose witness was traced to the open defect is listed.
     tap_shift = 0.0
     if "tap_step_degree" in net.trafo.columns:
         for idx in net.trafo.index[net.trafo.in_service.values.astype(bool)]:
@@ -631,9 +641,7 @@ def _check(case):
         open_cls = "flat+i-meas"
     else:
         open_cls = None
-    if sab and has_branch_rows:
-        repaired_cls = "side-as-bus"
-    elif t3_out_measured:
+    if t3_out_measured:          # (the side-as-bus shape is decided by the differential in check())
         repaired_cls = "t3-terminal-oos"
     elif alg == "wls_with_zero_constraint" and sn != 1.0:
         repaired_cls = "zero-constraint-sn!=1"
@@ -643,7 +651,10 @@ def _check(case):
         repaired_cls = "slack-angle-no-dc-init"
     else:
         repaired_cls = None
-    fsig = "+".join(c for c in (open_cls, repaired_cls) if c) or "plain"
+    if open_cls and repaired_cls in ("t3-terminal-oos", "zero-constraint-sn!=1"):
+        fsig = open_cls + "+" + repaired_cls
+    else:
+        fsig = open_cls or repaired_cls or "plain"
     shape = fsig != "plain"
 
     def sig(coarse, fine):
